@@ -221,6 +221,77 @@ fn check_id_locality(ctx: &Ctx, name: &str, text: &str, is_cte: bool) -> u64 {
     n
 }
 
+/// (type, byte range) of every block `"name" = TYPE ... ..` of a BDL text
+fn blocks_of(text: &str) -> Vec<(String, usize, usize)> {
+    let mut v = vec![];
+    let mut pos = 0;
+    let mut open: Option<(String, usize)> = None;
+    for l in text.split_inclusive('\n') {
+        let t = l.trim();
+        if open.is_none() {
+            if t.starts_with('"') {
+                if let Some((_, ty)) = t.rsplit_once('=') {
+                    let ty = ty.trim();
+                    if !ty.is_empty() && ty.chars().all(|c| c.is_ascii_uppercase() || c == '-') {
+                        open = Some((ty.to_string(), pos));
+                    }
+                }
+            }
+        } else if t == ".." {
+            let (ty, start) = open.take().unwrap();
+            v.push((ty, start, pos + l.len()));
+        }
+        pos += l.len();
+    }
+    v
+}
+
+/// The first block of every type written twice (straight after itself, or again at the end of the document): the same
+/// definition given twice is still one definition, so every conversion of that document gives the same bytes and
+/// the elements that were there keep their ids.
+fn check_duplicated_definitions(ctx: &Ctx, name: &str, text: &str, is_cte: bool, places: usize) -> u64 {
+    let Outcome::Ok(m0) = corpus::convert_text(text, is_cte) else { return 0 };
+    let ids0 = ids_of(&m0);
+    let mut seen = std::collections::BTreeSet::new();
+    let mut n = 0;
+    for (ty, a, b) in blocks_of(text) {
+        if !seen.insert(ty.clone()) {
+            continue;
+        }
+        let block = &text[a..b];
+        for place in 0..places {
+            let t1 = if place == 0 { format!("{}{}{}", &text[..b], block, &text[b..]) } else { insert_before_end(text, is_cte, block) };
+            n += 1;
+            let case = || json!({"part": "duplicated-definition", "file": name, "block_type": ty, "place": if place == 0 { "after itself" } else { "at the end" }, "block": block});
+            let r1 = corpus::convert_text(&t1, is_cte);
+            let r2 = std::thread::scope(|s| s.spawn(|| corpus::convert_text(&t1, is_cte)).join()).unwrap_or(Outcome::Panic("thread".into()));
+            match (r1, r2) {
+                (Outcome::Ok(m1), Outcome::Ok(m2)) => {
+                    if m1.as_json().unwrap_or_default() != m2.as_json().unwrap_or_default() {
+                        ctx.violation(&format!("repeat-differs:duplicated-{}", ty), &format!("{}: two conversions of the same document (a {} block written twice) give different JSON", name, ty), case());
+                        continue;
+                    }
+                    if place == 0 {
+                        let ids1 = ids_of(&m1);
+                        for (k, id) in &ids0 {
+                            if let Some(id1) = ids1.get(k) {
+                                if id1 != id {
+                                    ctx.violation(&format!("id-locality:{}-changes-when-duplicating-{}", k.split(':').next().unwrap_or(""), ty), &format!("{}: id of {} changes from {} to {} when a {} block is written twice", name, k, id, id1, ty), case());
+                                    break;
+                                }
+                            }
+                        }
+                    }
+                }
+                (Outcome::Err(_), Outcome::Err(_)) => {}
+                (Outcome::Panic(p), _) | (_, Outcome::Panic(p)) => ctx.violation(&format!("panic:{}", panic_key(&p)), &p, case()),
+                _ => ctx.violation(&format!("repeat-differs:duplicated-{}:ok-vs-error", ty), &format!("{}: one conversion succeeds and the other fails", name), case()),
+            }
+        }
+    }
+    n
+}
+
 fn insert_before_first_floor(text: &str, extra: &str) -> Option<String> {
     // position of the line that opens the first FLOOR block
     let mut pos = 0;
@@ -391,10 +462,12 @@ pub fn run(ctx: &Ctx) -> i32 {
         let (p, is_cte) = &files[i as usize];
         let text = if *is_cte { corpus::read_latin1(p) } else { corpus::read_utf8(p) };
         cnt.fetch_add(check_id_locality(ctx, p.rsplit('/').next().unwrap(), &text, *is_cte), std::sync::atomic::Ordering::Relaxed);
+        cnt.fetch_add(check_duplicated_definitions(ctx, p.rsplit('/').next().unwrap(), &text, *is_cte, ctx.tier.pick(1, 2)), std::sync::atomic::Ordering::Relaxed);
     });
     loc_n += cnt.load(std::sync::atomic::Ordering::Relaxed);
     for s in projgen::all_specs(Tier::Quick).iter().step_by(ctx.tier.pick(97, 11)) {
         loc_n += check_id_locality(ctx, &format!("generated {:?}", s), &projgen::ctehexml_text(s), false);
+        loc_n += check_duplicated_definitions(ctx, &format!("generated {:?}", s), &projgen::ctehexml_text(s), false, 2);
     }
     ctx.eval(loc_n);
     ctx.nontriv(loc_n);
@@ -467,7 +540,7 @@ pub fn run(ctx: &Ctx) -> i32 {
     }
     ctx.finish(
         "model_checking",
-        &format!("(1) histories: every sequence of 1 and 2 operations over 9 operations (3 conversions, 5 indicator computations incl. a model without windows and a broken model, 1 collect_hulc_data with extra files) and {} sequences of 3 over a 6-operation core, each run in a fresh worker process: the last operation's observation (model JSON bytes / indicators as JSON value) must equal its observation as the only operation of a fresh process, and repeat identically 3x in-process; 4 conversions x 8 fresh processes byte-identical; (2) id locality: for corpus and generated projects, appending each of 12 unrelated definitions (material, layers, glass, frame, gap, polygon, day/week/year schedule, shade, bridge, floor+space+wall) keeps every pre-existing element id; (3) schedules: controlled scheduler over the three hooked lock sites, real threads, DFS with preemption bounds as listed in schedule_exploration (deadlock / panic / result-vs-sequential-reference per execution, replay determinism checked first), + a free-running 16-thread sampling complement; (4) the 6 shipped (project, reference model) pairs compared through today's serialiser", ctx.tier.pick(36, 216)),
+        &format!("(1) histories: every sequence of 1 and 2 operations over 9 operations (3 conversions, 5 indicator computations incl. a model without windows and a broken model, 1 collect_hulc_data with extra files) and {} sequences of 3 over a 6-operation core, each run in a fresh worker process: the last operation's observation (model JSON bytes / indicators as JSON value) must equal its observation as the only operation of a fresh process, and repeat identically 3x in-process; 4 conversions x 8 fresh processes byte-identical; (2) id locality: for corpus and generated projects, appending each of 12 unrelated definitions (material, layers, glass, frame, gap, polygon, day/week/year schedule, shade, bridge, floor+space+wall) keeps every pre-existing element id, and writing the first block of every type twice (straight after itself / again at the end) gives the same bytes on every conversion, on another thread too, and keeps the ids; (3) schedules: controlled scheduler over the three hooked lock sites, real threads, DFS with preemption bounds as listed in schedule_exploration (deadlock / panic / result-vs-sequential-reference per execution, replay determinism checked first), + a free-running 16-thread sampling complement; (4) the 6 shipped (project, reference model) pairs compared through today's serialiser", ctx.tier.pick(36, 216)),
         true,
         json!({"states": states.max(1), "transitions": transitions.max(1), "traces_validated_against_impl": transitions}),
     )
